@@ -9,6 +9,10 @@ verus! {
 
 #[verifier::external_type_specification] #[verifier::external_body] pub struct ExIoError(std::io::Error);
 
+// TRUSTED: std::io::ErrorKind is a plain enum; `io::Error::from(kind)` builds an error value and never panics
+#[verifier::external_type_specification] pub struct ExErrorKind(std::io::ErrorKind);
+pub assume_specification [<std::io::Error as From<std::io::ErrorKind>>::from] (k: std::io::ErrorKind) -> std::io::Error;
+
 //@@ item src/cfb.rs enum CfbError
 
 //@@ include common/bytes.rs
@@ -384,6 +388,8 @@ pub open spec fn chunk_facts(sq: Seq<u8>, cs: int, e: int, full: Option<Seq<u8>>
         valid_container(s@) ==> (r matches Ok(v) && v@ == decode(s@)),
         //# C18.bad_container_signature_rejected
         s@.len() >= 1 && s@[0] != 1 ==> r is Err,
+        //# C06.empty_container_rejected
+        s@.len() == 0 ==> r is Err,
 //@@ body
     proof { axiom_slice_len_isize(s); }
 //@@ closure 0
@@ -407,8 +413,9 @@ pub open spec fn chunk_facts(sq: Seq<u8>, cs: int, e: int, full: Option<Seq<u8>>
             valid_container(s@) ==> ok,
             ok ==> (full is Some && full == dec_chunks(sq, i as int, res@)),
         decreases (if i < s@.len() { s@.len() - i } else { 0 }),
-//@@ before /let chunk_header = /
+//@@ before /if s\.len\(\) - i < /#0of3
         let ghost res_top = res@;
+        proof { if ok { lemma_chunk_unfold(sq, i as int, res_top); } }
 //@@ after /let chunk_flag = [^;]*;/
         let ghost cs = i - 2;
         let ghost e = cs + (chunk_size as int) + 3;
@@ -449,7 +456,7 @@ pub open spec fn chunk_facts(sq: Seq<u8>, cs: int, e: int, full: Option<Seq<u8>>
                     1 <= i, i_chunk <= i, s@.len() <= isize::MAX, is_p2_table(POWER_2), chunk_size <= 4095, start <= res@.len(), sq == s@,
                     chunk_len == i - (cs + 2), e == cs + chunk_size + 3,
                     ok ==> chunk_facts(sq, cs, e, full, tgt, start as int),
-                    ok ==> full is Some,
+                    ok ==> full is Some, valid_container(s@) ==> ok,
                 ensures
                     ok ==> (full is Some && full == dec_chunks(sq, i as int, res@)),
                 decreases (if i < s@.len() { s@.len() - i } else { 0 }),
@@ -462,7 +469,7 @@ pub open spec fn chunk_facts(sq: Seq<u8>, cs: int, e: int, full: Option<Seq<u8>>
                         it.seq().len() == 8, forall|k: int| 0 <= k < 8 ==> it.seq()[k] == k,
                         chunk_len == i - (cs + 2), e == cs + chunk_size + 3,
                         ok ==> chunk_facts(sq, cs, e, full, tgt, start as int),
-                        ok ==> full is Some,
+                        ok ==> full is Some, valid_container(s@) ==> ok,
                         ok ==> tgt == dec_toks(sq, i as int, e, fl(bit_flags, it.index@ as int), it.index@ as int, res@, start as int),
 //@@ before /break;/
                     proof { if ok {
@@ -495,16 +502,12 @@ pub open spec fn chunk_facts(sq: Seq<u8>, cs: int, e: int, full: Option<Seq<u8>>
                     }
 //@@ before /res\.push\(/
                         proof {
-                            //# C06.literal_past_end
-                            assert(i < s@.len());
                             if ok { lemma_toks_literal(sq, i as int, e, bit_flags, kk, res@, start as int); }
                         }
 //@@ after /chunk_len \+= 1;/#1of2
                         proof { if ok && kk == 7 { lemma_toks_k8(sq, i_tok + 1, e, bit_flags, 0u8, res@, start as int); } }
-//@@ before /let token = /
+//@@ before /if s\.len\(\) - i < /#2of3
                         proof {
-                            //# C06.copy_token_past_end
-                            assert(i + 2 <= s@.len());
                             if ok { lemma_toks_copy(sq, i as int, e, bit_flags, kk, res@, start as int); }
                         }
 //@@ before /let bit_count = /
@@ -546,7 +549,8 @@ pub open spec fn chunk_facts(sq: Seq<u8>, cs: int, e: int, full: Option<Seq<u8>>
                             invariant
                                 1 <= offset, 1 <= len <= len0, res@.len() + len == res0.len() + len0,
                                 offset < len0 ==> offset <= 4096,
-                                ok ==> (offset <= res0.len() && copy_bytes(res0, offset as int, len0 as int) == copy_bytes(res@, offset as int, len as int)),
+                                offset <= res0.len(),
+                                ok ==> copy_bytes(res0, offset as int, len0 as int) == copy_bytes(res@, offset as int, len as int),
                             decreases len,
 //@@ before /while len > offset/
                         let ghost len0 = len;
@@ -654,6 +658,15 @@ fn verif_log_enabled() -> bool { false }
 /// a variable-length record at the cursor: u32 LE size, then size * mult payload bytes
 pub open spec fn var_len(s: Seq<u8>, mult: int) -> int { le32(s) * mult }
 
+//@@ fn src/vba.rs skip props=C06 entry ret=res
+//@@ sig
+    ensures
+        //# C18.skip_ok
+        res is Ok ==> old(stream)@.len() >= n && final(stream)@ == old(stream)@.skip(n as int),
+        //# C18.skip_err_iff_short
+        res is Err <==> old(stream)@.len() < n,
+//@@ end
+
 //@@ fn src/vba.rs read_variable_record props=C06 ret=res
 //@@ sig
     // every call site in src/vba.rs passes mult == 1 (with a larger factor `u32 as usize * mult` can overflow a 32-bit usize)
@@ -663,14 +676,11 @@ pub open spec fn var_len(s: Seq<u8>, mult: int) -> int { le32(s) * mult }
         res matches Ok(rec) ==> (old(r)@.len() >= 4 + var_len(old(r)@, mult as int)
             && rec@ == old(r)@.subrange(4, 4 + var_len(old(r)@, mult as int))
             && final(r)@ == old(r)@.skip(4 + var_len(old(r)@, mult as int))),
-        //# C18.var_record_err_only_if_no_size
-        res is Err ==> old(r)@.len() < 4,
+        //# C18.var_record_err_iff_short
+        res is Err <==> (old(r)@.len() < 4 || old(r)@.len() < 4 + var_len(old(r)@, mult as int)),
 //@@ before /let \(read, next\)/
     proof {
         assert(len == var_len(old(r)@, mult as int));
-        // the announced size is not compared with what is left: `split_at` panics ("mid > len") when it is larger
-        //# C06.var_record_size_beyond_end
-        assert(len <= r@.len());
     }
 //@@ end
 
@@ -707,7 +717,7 @@ verif_log_enabled()
 pub open spec fn dir_codepage_rec(s: Seq<u8>) -> Seq<u8> {
     if le16(s.skip(10)) == 0x004A { s.skip(10).skip(10).skip(20) } else { s.skip(10).skip(20) }
 }
-pub open spec fn dir_codepage(s: Seq<u8>) -> int { le16(dir_codepage_rec(s).subrange(6, 8)) }
+pub open spec fn dir_codepage(s: Seq<u8>) -> int { le16(dir_codepage_rec(s).skip(6)) }
 
 /// variable record at the head of t: id u16, size u32, payload[size]
 pub open spec fn vr_size(t: Seq<u8>) -> int { le32(t.skip(2)) }
@@ -750,20 +760,14 @@ spec fn module_ok(t: Seq<u8>, m: Module, cp: u16) -> bool {
         res matches Ok(enc) ==> enc.cp as int == dir_codepage(old(stream)@),
 //@@ body
     let ghost s0 = stream@;
-//@@ before /if read_u16\(&stream\[0\.\.2\]\)/
+//@@ before /if stream\.len\(\) >= /
     proof {
-        // the id of the optional PROJECTCOMPATVERSION record is read without a length check
-        //# C06.dir_compat_id_beyond_end
-        assert(stream@.len() >= 2);
         assert(stream@ == s0.skip(10));
-        assert(le16(stream@.subrange(0, 2)) == le16(s0.skip(10)));
+        if stream@.len() >= 2 { assert(le16(stream@.subrange(0, 2)) == le16(s0.skip(10))); }
     }
 //@@ before /let encoding = /
     proof {
-        // PROJECTCODEPAGE: `stream[6..8]` without a length check
-        //# C06.dir_codepage_beyond_end
-        assert(stream@.len() >= 8);
-        assert(stream@ == dir_codepage_rec(s0));
+        assert(stream@ == dir_codepage_rec(s0).skip(6));
     }
 //@@ end
 
@@ -801,11 +805,6 @@ spec fn module_ok(t: Seq<u8>, m: Module, cp: u16) -> bool {
         proof { assert(u0 == mod_flags(t)); }
 //@@ after /loop \{/
             let ghost u = stream@;
-            proof {
-                // reserved u32 of MODULETYPE / MODULEREADONLY / MODULEPRIVATE is skipped without a length check
-                //# C06.module_flags_reserved_beyond_end
-                assert(stream@.len() >= 4);
-            }
 //@@ after /modules\.push\(Module \{[^;]*;/
         proof {
             assert(stream@ == mod_rest(t));
@@ -826,7 +825,7 @@ pub assume_specification<P: std::str::pattern::Pattern> [str::strip_prefix::<P>]
 //@@ impl src/vba.rs "Reference"
 // TRUSTED: Reference::set_libid is NOT verified (String::rsplit / PathBuf are outside vstd). Assumed from its text: its only access to the
 // stream is `read_variable_record(stream, 1)?`, so the cursor never moves backwards; it does not touch `self.name`.
-// (its possible panic is the split_at finding of read_variable_record)
+// (read_variable_record itself is verified panic-free above)
 //@@ fn src/vba.rs Reference::set_libid external_body ret=res
 //@@ sig
     ensures final(stream)@.len() <= old(stream)@.len(), final(self).name == old(self).name,
@@ -836,46 +835,6 @@ pub assume_specification<P: std::str::pattern::Pattern> [str::strip_prefix::<P>]
 //@@ loop 0
             invariant true,
             decreases stream@.len(),
-//@@ before /\*stream = &stream\[/#0of8
-                    proof {
-                        //# C06.reference_fixed_part_beyond_end
-                        assert(stream@.len() >= 4);
-                    }
-//@@ before /\*stream = &stream\[/#1of8
-                    proof {
-                        //# C06.reference_fixed_part_beyond_end
-                        assert(stream@.len() >= 6);
-                    }
-//@@ before /\*stream = &stream\[/#2of8
-                    proof {
-                        //# C06.reference_fixed_part_beyond_end
-                        assert(stream@.len() >= 4);
-                    }
-//@@ before /\*stream = &stream\[/#3of8
-                    proof {
-                        //# C06.reference_fixed_part_beyond_end
-                        assert(stream@.len() >= 26);
-                    }
-//@@ before /\*stream = &stream\[/#4of8
-                    proof {
-                        //# C06.reference_fixed_part_beyond_end
-                        assert(stream@.len() >= 4);
-                    }
-//@@ before /\*stream = &stream\[/#5of8
-                    proof {
-                        //# C06.reference_fixed_part_beyond_end
-                        assert(stream@.len() >= 6);
-                    }
-//@@ before /\*stream = &stream\[/#6of8
-                    proof {
-                        //# C06.reference_fixed_part_beyond_end
-                        assert(stream@.len() >= 4);
-                    }
-//@@ before /\*stream = &stream\[/#7of8
-                    proof {
-                        //# C06.reference_fixed_part_beyond_end
-                        assert(stream@.len() >= 6);
-                    }
 //@@ end
 //@@ endimpl
 
